@@ -1129,6 +1129,9 @@ func fieldStores(fn *ssa.Function, field string) []*ssa.Store {
 // of the same type switch).
 var decoderOKRe = regexp.MustCompile(`^call \(types\.Decoder\)\.Err\(.*\) == nil$`)
 
+// an existence flag: a phi one of whose alternatives is a boolean constant
+var flagPhiRe = regexp.MustCompile(`phi\((?:[^()]*\|)?const:(?:true|false)[|)]`)
+
 var nonEmptyRe = regexp.MustCompile(`^len\((.+)\) (?:!=|>) const:0$`)
 
 func ctxAllowed(descs []string, allowed []*regexp.Regexp, operands []string, perElem bool) []bool {
@@ -1179,7 +1182,7 @@ func ctxAllowed(descs []string, allowed []*regexp.Regexp, operands []string, per
 		}
 		elem := m[1] + "[*]"
 		for _, o := range operands {
-			if perElem && strings.Contains(o, elem) && !strings.Contains(o, "phi(") {
+			if perElem && strings.Contains(o, elem) && !flagPhiRe.MatchString(o) {
 				ok[i] = true
 			}
 		}
@@ -1237,6 +1240,48 @@ func (ge *GuardEngine) siteProblemsOpt(g Guard, allowed []*regexp.Regexp, loopEx
 		}
 		if len(bad) > 0 {
 			return "guard can be bypassed — it is only evaluated when " + strings.Join(bad, " && ")
+		}
+		// vacuity edges: a branch taken only when a collection is empty is a legitimate way around a guard that
+		// concerns an element of that collection (same criterion as the non-emptiness contexts in ctxAllowed)
+		relevant := func(x string) bool {
+			elem := x + "[*]"
+			for _, o := range operands {
+				if perElem && strings.Contains(o, elem) && !flagPhiRe.MatchString(o) {
+					return true
+				}
+			}
+			for i, d := range descs {
+				if okv[i] && strings.Contains(d, elem) {
+					return true
+				}
+			}
+			return false
+		}
+		for _, vb := range st.Fn.Blocks {
+			if len(vb.Instrs) == 0 || len(vb.Succs) != 2 {
+				continue
+			}
+			vif, isIf := vb.Instrs[len(vb.Instrs)-1].(*ssa.If)
+			if !isIf {
+				continue
+			}
+			saved := ge.pv.loadCtx
+			ge.pv.loadCtx = []ssa.Instruction{vif}
+			l, op, r := ge.decompose(vif.Cond, st.Env)
+			ge.pv.loadCtx = saved
+			if r != "const:0" || !strings.HasPrefix(l, "len(") || !strings.HasSuffix(l, ")") {
+				continue
+			}
+			emptyEdge := -1
+			switch op {
+			case "==", "<=":
+				emptyEdge = 0
+			case "!=", ">":
+				emptyEdge = 1
+			}
+			if emptyEdge >= 0 && relevant(l[4:len(l)-1]) {
+				legit[[2]int{vb.Index, emptyEdge}] = true
+			}
 		}
 		if g.Weak && st.Block == g.Block && st.Fn == g.Fn {
 			continue // a conjunct is by construction not on every path; its context was checked above
